@@ -11,6 +11,7 @@ import (
 	"fmt"
 	"os"
 	"strconv"
+	"strings"
 	"syscall"
 	"testing"
 	"unsafe"
@@ -238,17 +239,38 @@ func TestC03Synth(t *testing.T) {
 		mem[i] = 0xCC
 	}
 	// layout: placeholder (240 NOPs + RET, then int3s and a fingerprint) and the function blob, in either order
-	phOff, fnOff := 64, 1024
-	if side == "after" {
-		phOff, fnOff = 2048, 1024
-	}
-	for i := 0; i < 240; i++ {
-		mem[phOff+i] = 0x90
-	}
-	mem[phOff+240] = 0xC3
-	copy(mem[phOff+249:], []byte{0x65, 0x48, 0x8b, 0x0c, 0x25, 0x30, 0x00, 0x00, 0x00, 0x48})
+	// "before"/"after" put a 240-byte placeholder about 1 KiB away; "before:N"/"after:N" put a 72-byte placeholder N
+	// bytes in front of / behind the entry, so that re-based rel8 displacements fall on either side of the signed-byte
+	// limits (the widening decision)
+	phOff, fnOff, phLen := 64, 1024, 240
 	a := sh.build()
 	code := a.link()
+	if side == "after" {
+		phOff, fnOff = 2048, 1024
+	} else if strings.HasPrefix(side, "before:") {
+		n, _ := strconv.Atoi(side[7:])
+		phLen, phOff = 72, fnOff-n
+		if n < 96 {
+			rep.Inconclusive = "bad placement " + side
+			return
+		}
+	} else if strings.HasPrefix(side, "after:") {
+		n, _ := strconv.Atoi(side[6:])
+		phLen, phOff = 72, fnOff+n
+		if n < len(code)+8 {
+			// the blob itself is longer than this distance: placement impossible, nothing to decide
+			rep.Eval(1)
+			rep.Class("synth/placement-skipped")
+			rep.Class("synth/placement-skipped2")
+			rep.Stat("synthetic_placements_skipped", 1)
+			return
+		}
+	}
+	for i := 0; i < phLen; i++ {
+		mem[phOff+i] = 0x90
+	}
+	mem[phOff+phLen] = 0xC3
+	copy(mem[phOff+phLen+9:], []byte{0x65, 0x48, 0x8b, 0x0c, 0x25, 0x30, 0x00, 0x00, 0x00, 0x48})
 	copy(mem[fnOff:], code)
 	entry, ph := base+uintptr(fnOff), base+uintptr(phOff)
 	flagOff := fnOff + a.labels["flag"]
@@ -315,7 +337,7 @@ func TestC03Synth(t *testing.T) {
 	}
 	// nothing but the placeholder may have been written so far
 	for i := range mem {
-		if mem[i] != before[i] && (i < phOff || i >= phOff+241) {
+		if mem[i] != before[i] && (i < phOff || i >= phOff+phLen+1) {
 			rep.Violate("C03/bytes-outside-placeholder-changed", fmt.Sprintf("synthetic shape %q: byte at mapping offset %d changed before Apply", sh.name, i), c)
 			break
 		}
@@ -338,7 +360,7 @@ func TestC03Synth(t *testing.T) {
 	}
 	g.UnpatchWithLock()
 	for i := range mem {
-		if mem[i] != before[i] && (i < phOff || i >= phOff+241) && !(i >= flagOff && i < flagOff+8) {
+		if mem[i] != before[i] && (i < phOff || i >= phOff+phLen+1) && !(i >= flagOff && i < flagOff+8) {
 			rep.Violate("C03/not-restored", fmt.Sprintf("synthetic shape %q: byte at mapping offset %d differs after unpatch", sh.name, i), c)
 			break
 		}
